@@ -379,7 +379,8 @@ def sx(x, n):
 def cstr_bytes(raw):
     out = []; i = 0
     while i < len(raw):
-        if raw[i] == '\\': out.append(int(raw[i+1:i+3], 16)); i += 3
+        if raw[i] == '\\' and raw[i+1] == '\\': out.append(0x5C); i += 2
+        elif raw[i] == '\\': out.append(int(raw[i+1:i+3], 16)); i += 3
         else: out.append(ord(raw[i])); i += 1
     return out
 
